@@ -271,6 +271,7 @@ def run(prog, chk):
     C.wrappers(prog, chk, "C01.w", TREE)
     subtree_start(prog, chk)
     double_rotation_table(prog, chk)
+    slots_by_reference(prog, chk)
     balance_bookkeeping(prog, chk)
     C.parent_pairing(prog, chk, "C01.h", TREE)
     from .. import containers
@@ -609,3 +610,47 @@ def transplant_refresh(chk, f, loops):
                     "decisions are taken on a stale, too small height" % f.path_lines(bad)[:8], evals=len(early) + 1)
         else:
             chk.ok("C01.m", f, "early exit of the bounded walk refreshes `*cell`", where, "MPT from %d early exit edge(s)" % len(early), evals=len(early) + 1)
+
+
+def slots_by_reference(prog, chk):
+    """C01.n - rotations publish the new subtree top by assigning to their `Item*&` parameter: the argument has to BE the slot of the
+    tree (a child field, the root, or a reference bound to one).  A pointer local that merely holds the slot's value takes the
+    assignment instead, the tree keeps pointing at the old top and the rotated-in node drops out of the search structure."""
+    chk.rule("C01.n", "WHO/TYPE: every argument bound to an `Item*&` parameter of a tree helper designates a slot of the tree - a left/right/root "
+                      "field, a reference variable, or a choice between such - never a pointer variable holding a copy", floor=6)
+    for cls in TREE:
+        for tn, fs in sorted(C.class_insts(prog, cls).items()):
+            for f in fs:
+                if not f.blocks:
+                    continue
+                for c in q.calls(f):
+                    g = prog.functions.get(f.nodes[c].get("csig"))
+                    if g is None or (g.clsq or "").split("<")[0] != cls:
+                        continue
+                    args = q.call_args(f, c)
+                    for k, gp in enumerate(g.params):
+                        if not re.search(r"Item \*&$", gp.get("t") or "") or k >= len(args):
+                            continue
+
+                        def is_slot(x, depth=0):
+                            x = f.strip(x)
+                            n = f.nodes[x]
+                            while n["k"] == "ParenExpr" and n["c"]:
+                                n = f.nodes[f.strip(n["c"][0])]
+                            if n["k"] == "MemberExpr":
+                                return True
+                            if n["k"] == "DeclRefExpr":
+                                return "&" in (n["ref"].get("t") or "")
+                            if n["k"] == "ConditionalOperator" and depth < 3:
+                                return is_slot(n["c"][1], depth + 1) and is_slot(n["c"][2], depth + 1)
+                            if n["k"] == "UnaryOperator" and n.get("op") == "*":
+                                return True
+                            return False
+                        if is_slot(args[k]):
+                            chk.ok("C01.n", f, "%s(%s): the argument is a slot of the tree" % (g.short, q.no_casts(f.r(args[k]))[:30]), f.where(c), "lvalue kind of the bound argument", evals=1)
+                        else:
+                            chk.bad("C01.n", f, "slot-passed-by-copy:" + g.short, f.where(c),
+                                    "`%s` binds the pointer variable `%s` to the slot parameter of %s: the helper stores the new subtree top "
+                                    "into that variable, the tree's own child pointer still names the old top - the node rotated in (and its "
+                                    "subtree) can no longer be found by key although iteration still shows it" % (
+                                        q.no_casts(f.r(c))[:40], q.no_casts(f.r(args[k]))[:30], g.short), evals=1)
